@@ -55,6 +55,10 @@ const (
 // defaultHitForPassSeconds default hit for pass: 300 seconds
 const defaultHitForPassSeconds = 300
 
+// maxCacheableSeconds the max ttl of cacheable response (RFC 7234 1.2.1: 2^31 - 1),
+// it also guarantees that createdAt + ttl will not overflow
+const maxCacheableSeconds = 1<<31 - 1
+
 type (
 	// httpCache http cache (only for same request method+host+uri)
 	httpCache struct {
@@ -284,6 +288,10 @@ func (hc *httpCache) Cacheable(resp *HTTPResponse, ttl int) {
 	// 如果是可缓存数据，则选择默认的best compression
 	resp.CompressSrv = compress.BestCompression
 	_ = resp.Compress()
+	// 限制最大有效期，避免 createdAt + ttl 溢出导致缓存立即过期
+	if ttl > maxCacheableSeconds {
+		ttl = maxCacheableSeconds
+	}
 	hc.createdAt = nowUnix()
 	hc.expiredAt = hc.createdAt + int64(ttl)
 	hc.status = StatusHit
